@@ -28,6 +28,7 @@ from . import tast
 
 class RefError(Exception):
     """the reference says: this input is not decodable for this type"""
+    index_error = False
 
 
 class RefNotMapping(RefError):
@@ -176,9 +177,13 @@ def tz_parse(s) -> datetime.timezone:
 
 
 class Ref:
-    def __init__(self, fam):
+    def __init__(self, fam, quirks=()):
         self.fam = fam
         self.tv_bind = {}
+        # quirks: behaviours of the pinned library that are recorded findings; a quirk
+        # reference is used ONLY to classify a violation already established by the
+        # strict reference (is the observation explained by exactly this mechanism?)
+        self.quirks = frozenset(quirks)
 
     # ================================================================ options
     def dc_opts(self, name, ctx):
@@ -604,21 +609,44 @@ class Ref:
         try:
             return d[i]
         except Exception as e:
-            raise RefError(f"index {i!r}: {type(e).__name__}")
+            err = RefError(f"index {i!r}: {type(e).__name__}")
+            err.index_error = isinstance(e, IndexError)
+            raise err
+
+    def _at(self, ft, d, i, ctx):
+        """element decode; a NoneType position is the constant None and never reads
+        the input (documented rendering of NoneType is the constant)."""
+        c = self._const(ft)
+        if c is not _MISSING:
+            return c
+        return self.dec(ft, self._idx(d, i), ctx)
+
+    @staticmethod
+    def _const(ft):
+        """positions rendered as constants: NoneType -> None, Tuple[()] -> ()."""
+        s = tast.strip(ft)
+        if s == ("none",):
+            return None
+        if s[0] == "tuple" and not s[2]:
+            return ()
+        return _MISSING
 
     def _d_tuple(self, t, d, ctx):
-        return tuple([self.dec(x, self._idx(d, i), ctx) for i, x in enumerate(t[2])])
+        return tuple([self._at(x, d, i, ctx) for i, x in enumerate(t[2])])
 
     def _d_vtuple(self, t, d, ctx):
         return tuple([self.dec(t[2], x, ctx) for x in self._iter(d)])
 
     def _d_utuple(self, t, d, ctx):
         pre, mid, post = t[2], t[3], t[4]
-        out = [self.dec(x, self._idx(d, i), ctx) for i, x in enumerate(pre)]
+        out = [self._at(x, d, i, ctx) for i, x in enumerate(pre)]
         sl = slice(len(pre), -len(post) if post else None)
-        out += list(self.dec(mid, self._idx(d, sl), ctx))
+        if mid[0] == "tuple" and all(self._const(x) is not _MISSING for x in mid[2]):
+            out += [self._const(x) for x in mid[2]]     # all-constant unpack: input never read
+        else:
+            out += list(self.dec(mid, self._idx(d, sl), ctx))
         n = len(post)
-        out += [self.dec(x, self._idx(d, i - n), ctx) for i, x in enumerate(post)]
+        out += [self._at(x, d, i - n, ctx) for i, x in enumerate(post)]
         return tuple(out)
 
     def _d_nt(self, t, d, ctx):
@@ -629,18 +657,29 @@ class Ref:
         vals = []
         if ctx.nt_as_dict:
             for f in fields:
-                vals.append(self.dec(f["t"], self._idx(d, f["n"]), ctx))
+                vals.append(self._at(f["t"], d, f["n"], ctx))
             return self._call(cls, *vals)
         for i, f in enumerate(fields):
+            c = self._const(f["t"])
+            if c is not _MISSING:
+                vals.append(c)   # constant position: never reads the input
+                continue
             try:
                 item = d[i]
             except IndexError:
                 if has_defaults:
                     break
-                raise RefError("short input")
+                err = RefError("short input")
+                err.index_error = True
+                raise err
             except Exception as e:
                 raise RefError(f"index: {type(e).__name__}")
-            vals.append(self.dec(f["t"], item, ctx))
+            try:
+                vals.append(self.dec(f["t"], item, ctx))
+            except RefError as e:
+                if "F24" in self.quirks and has_defaults and e.index_error:
+                    break
+                raise
         return self._call(cls, *vals)
 
     def _d_td(self, t, d, ctx):
@@ -652,7 +691,7 @@ class Ref:
             r = f.get("q") == "Required" or (f.get("q") is None and total)
             (req if r else optional).append(f)
         for f in req:
-            out[f["n"]] = self.dec(f["t"], self._idx(d, f["n"]), ctx)
+            out[f["n"]] = self._at(f["t"], d, f["n"], ctx)
         for f in optional:
             try:
                 x = d.get(f["n"], _MISSING)
@@ -782,6 +821,8 @@ class Ref:
                     return self.dec(m, d, ctx)
                 except RefError:
                     pass
+            elif s[0] == "none" and "F02" in self.quirks:
+                return None
         raise RefError("no union member accepts the input")
 
     def _d_lit(self, t, d, ctx):
@@ -1060,8 +1101,6 @@ def deep_eq(a, b, *, key_order=True) -> bool:
                     break
         return True
     if isinstance(a, (set, frozenset)):
-        if a != b:
-            return False
         return sorted(map(_tkey, a)) == sorted(map(_tkey, b))
     if dataclasses.is_dataclass(a) and not isinstance(a, type):
         return all(deep_eq(getattr(a, f.name, _MISSING), getattr(b, f.name, _MISSING), key_order=key_order)
